@@ -271,6 +271,9 @@ def run_impl(case: dict, res_override: float | None = None) -> dict:
         g.set_resolution(res)
         res_before = g.state.resolution
     sf = g.state.length_units.scale_factor
+    if case.get("iso"):
+        # an isometry active on the builder's transformer from before the positioning move on (configuration, see `gen_iso`)
+        install_iso(g, case["iso"])
     g.set_direction("cw" if case["cw"] else "ccw")
     s = case["start"]
     g.move(x=s[0], y=s[1], z=s[2])
@@ -340,6 +343,110 @@ def run_impl(case: dict, res_override: float | None = None) -> dict:
         "words": [m[2] for m in moves],
         "position": pos,
     }
+
+
+# ------------------------------------------------------------------ isometries on the builder's transformer
+# A case may carry "iso": a list of length-preserving operations installed on `g.transform` before the positioning
+# move (so the whole program, start included, is expressed in the transformed frame):
+#   ["mirror", "xy"|"yz"|"zx"]   ["reflect", [nx, ny, nz]]   ["rotate", degrees, "x"|"y"|"z"]
+#   ["flip", [sx, sy, sz]] with every factor +1 or -1 (through `scale`)   ["translate", [x, y, z]]   ["pivot", [x, y, z]]
+# No operation changes a length.  `iso_matrix` is the harness's own 4x4 matrix of the list (textbook formulas; nothing is
+# read from the implementation): emitted = A @ work + b.
+_PLANE_NORMAL = {"xy": (0.0, 0.0, 1.0), "yz": (1.0, 0.0, 0.0), "zx": (0.0, 1.0, 0.0)}
+
+
+def install_iso(g, ops) -> None:
+    t = g.transform
+    for op in ops:
+        k = op[0]
+        if k == "mirror":
+            t.mirror(op[1])
+        elif k == "reflect":
+            t.reflect([float(v) for v in op[1]])
+        elif k == "rotate":
+            t.rotate(float(op[1]), op[2])
+        elif k == "flip":
+            if any(abs(v) != 1.0 for v in op[1]):
+                raise core.Infra(f"flip factors must be +1/-1: {op}")
+            t.scale(*[float(v) for v in op[1]])
+        elif k == "translate":
+            t.translate(*[float(v) for v in op[1]])
+        elif k == "pivot":
+            t.set_pivot(tuple(float(v) for v in op[1]))
+        else:
+            raise core.Infra(f"unknown isometry operation {op}")
+
+
+def iso_matrix(ops) -> np.ndarray:
+    """4x4 matrix of the operations, applied in order, each about the pivot in force when it is issued"""
+    M = np.eye(4)
+    pivot = np.zeros(3)
+    for op in ops:
+        k = op[0]
+        L = np.eye(4)
+        if k == "pivot":
+            pivot = np.array([float(v) for v in op[1]])
+            continue
+        if k == "mirror" or k == "reflect":
+            n = np.array(_PLANE_NORMAL[op[1]] if k == "mirror" else [float(v) for v in op[1]], dtype=np.float64)
+            n = n / math.sqrt(float(n @ n))
+            L[:3, :3] = np.eye(3) - 2.0 * np.outer(n, n)
+        elif k == "rotate":
+            a = math.radians(float(op[1]))
+            co, si = math.cos(a), math.sin(a)
+            i, j = {"x": (1, 2), "y": (2, 0), "z": (0, 1)}[op[2]]  # right-handed: axis i turns towards axis j
+            L[i, i], L[i, j], L[j, i], L[j, j] = co, -si, si, co
+        elif k == "flip":
+            f = [float(v) for v in op[1]]
+            f = f * 3 if len(f) == 1 else f + [1.0] * (3 - len(f))  # one factor: all axes; two: z kept
+            L[:3, :3] = np.diag(f)
+        elif k == "translate":
+            L[:3, 3] = [float(v) for v in op[1]]
+        else:
+            raise core.Infra(f"unknown isometry operation {op}")
+        P, Pi = np.eye(4), np.eye(4)
+        P[:3, 3], Pi[:3, 3] = pivot, -pivot
+        M = P @ L @ Pi @ M
+    return M
+
+
+def iso_reflecting(ops) -> bool:
+    """orientation reversing (an odd number of reflections)?"""
+    return float(np.linalg.det(iso_matrix(ops)[:3, :3])) < 0
+
+
+def gen_iso(rng) -> list:
+    """1-3 length-preserving operations, optionally about a pivot and followed by a translation"""
+    ops = []
+    if rng.random() < 0.25:
+        ops.append(["pivot", [_grid(rng, -20, 20) for _ in range(3)]])
+    for _ in range(rng.choice([1, 1, 2, 2, 3])):
+        k = rng.choice(["mirror", "mirror", "reflect", "rotate", "rotate", "flip"])
+        if k == "mirror":
+            ops.append(["mirror", rng.choice(["xy", "yz", "zx"])])
+        elif k == "reflect":
+            while True:
+                n = [float(rng.randint(-4, 4)) for _ in range(3)]
+                if any(n):
+                    break
+            ops.append(["reflect", n])
+        elif k == "rotate":
+            ang = rng.choice([90.0, 180.0, -90.0, 30.0, 45.0]) if rng.random() < 0.4 else round(rng.uniform(-180, 180), 2)
+            ops.append(["rotate", ang, rng.choice(["x", "y", "z", "z"])])
+        else:
+            while True:
+                f = [rng.choice([1.0, -1.0]) for _ in range(3)]
+                if f != [1.0, 1.0, 1.0]:
+                    break
+            # every way `scale` takes its factors: one for all axes, two (z kept), three
+            if f[0] == f[1] == f[2]:
+                f = [f[0]]
+            elif f[2] == 1.0 and rng.random() < 0.5:
+                f = f[:2]
+            ops.append(["flip", f])
+    if rng.random() < 0.25:
+        ops.append(["translate", [_grid(rng, -30, 30) for _ in range(3)]])
+    return ops
 
 
 # ------------------------------------------------------------------ model lines
